@@ -490,7 +490,8 @@ def run(prog, check):
                          'itself a key is renamed again' % src.id, "swap map {'x': 'y', 'y': 'x'}: a swap must swap")
                 delegators.append(f)
     # the same for methods: a renaming applied once per entry of a mapping parameter is sequential
-    RENAMERS = rnames | {'replace_token', 'replace_token_from_lookup', 'ReplaceTokensFromLookup', '_ReplaceAliases'}
+    from ._common import sector_alias_rewriters
+    RENAMERS = rnames | {'replace_token', 'replace_token_from_lookup', 'ReplaceTokensFromLookup'} | sector_alias_rewriters(prog)
     for f in prog.all_functions():
         if f.cls is None or '/deprecated/' in f.module.rel:
             continue
